@@ -152,12 +152,13 @@ Fixpoint perms {A} (l : list A) : list (list A) :=
 Definition product {A} (ls : list (list A)) : list (list A) :=
   fold_right (fun opts acc => flat_map (fun o => map (cons o) acc) opts) [[]] ls.
 
-Fixpoint fact (n : nat) : nat := match n with O => 1 | S k => n * fact k end.
-Fixpoint n_orders (s : sch) : nat :=
+(* the number of visit orders, in binary (it is astronomically large for wide nested structs) *)
+Fixpoint factN (n : nat) : N := match n with O => 1%N | S k => (N.of_nat n * factN k)%N end.
+Fixpoint n_orders (s : sch) : N :=
   match s with
-  | SStruct fs _ _ => fact (length fs) * fold_right (fun kc acc => n_orders (snd (snd kc)) * acc) 1 fs
+  | SStruct fs _ _ => (factN (length fs) * fold_right (fun kc acc => n_orders (snd (snd kc)) * acc) 1 fs)%N
   | SSlice e _ | SPtr e _ _ | SPre _ e => n_orders e
-  | _ => 1
+  | _ => 1%N
   end.
 Fixpoint orders (s : sch) : list sch :=
   match s with
@@ -169,6 +170,32 @@ Fixpoint orders (s : sch) : list sch :=
   | SPre f e => map (fun e' => SPre f e') (orders e)
   | _ => [s]
   end.
+
+(** Go (1.23, the toolchain the harness is built with) iterates a map of at most 8 entries as a
+    rotation of its insertion order starting at a random slot: the rotations are tried first. *)
+Fixpoint rotations_aux {A} (n : nat) (l : list A) : list (list A) :=
+  match n with
+  | O => []
+  | S k => l :: rotations_aux k (match l with [] => [] | a :: r => r ++ [a] end)
+  end.
+Definition rotations {A} (l : list A) : list (list A) := match l with [] => [[]] | _ => rotations_aux (length l) l end.
+Fixpoint n_rotations (s : sch) : N :=
+  match s with
+  | SStruct fs _ _ => (N.max 1 (N.of_nat (length fs)) * fold_right (fun kc acc => n_rotations (snd (snd kc)) * acc) 1 fs)%N
+  | SSlice e _ | SPtr e _ _ | SPre _ e => n_rotations e
+  | _ => 1%N
+  end.
+Fixpoint rot_orders (s : sch) : list sch :=
+  match s with
+  | SStruct fs tests pts =>
+    let per_field := map (fun kc => map (fun c => (fst kc, (fst (snd kc), c))) (rot_orders (snd (snd kc)))) fs in
+    flat_map (fun combo => map (fun p => SStruct p tests pts) (rotations combo)) (product per_field)
+  | SSlice e c => map (fun e' => SSlice e' c) (rot_orders e)
+  | SPtr e nn pz => map (fun e' => SPtr e' nn pz) (rot_orders e)
+  | SPre f e => map (fun e' => SPre f e') (rot_orders e)
+  | _ => [s]
+  end.
+Definition max_rotations : N := 1500%N.
 
 (** ** the judge *)
 Definition tags_for (c : ecase) (s : sch) : list string :=
@@ -190,7 +217,7 @@ Definition tags_for (c : ecase) (s : sch) : list string :=
    ++ t "calls" (calls_agree false known (o_calls out) o)
    ++ t "args" (calls_agree true known (o_calls out) o))%list.
 
-Definition max_orders : nat := 150.
+Definition max_orders : N := 150%N.
 
 (** model-free oracles evaluated on what the implementation returned *)
 Definition oracle_tags (c : ecase) : list string :=
@@ -213,10 +240,15 @@ Definition check_case (c : ecase) : verdict :=
     else match t0 with
          | [] => Fail ot
          | _ =>
-           if Nat.ltb max_orders (n_orders (ec_sch c)) then Skip "order space too large"
-           else if existsb (fun s' => match tags_for c s' with [] => true | _ => false end) (orders (ec_sch c))
-                then (match ot with [] => Agree | _ => Fail ot end)
-                else Fail (ot ++ t0)
+           let agrees := fun s' => match tags_for c s' with [] => true | _ => false end in
+           let verdict_ok := match ot with [] => Agree | _ => Fail ot end in
+           let small := N.leb (n_orders (ec_sch c)) max_orders in
+           (* (vm_compute is call-by-value: the enumerations must sit under [if], not under [&&]) *)
+           let rot_ok := N.leb (n_rotations (ec_sch c)) max_rotations in
+           if (if rot_ok then existsb agrees (rot_orders (ec_sch c)) else false) then verdict_ok
+           else if small then (if existsb agrees (orders (ec_sch c)) then verdict_ok else Fail (ot ++ t0))
+           else if rot_ok then Fail ("rotations_only" :: ot ++ t0)
+           else Skip "order space too large"
          end
   end.
 
